@@ -210,6 +210,11 @@ pub struct MsgReadCase {
     /// end in the same error
     #[serde(default)]
     pub trailing: bool,
+    /// what follows the message when `trailing`: 0 the message once more; 1 a Marker packet and
+    /// the message once more; 2 a Padding packet and a literal packet; 3 a Marker packet, a
+    /// Padding packet and one stray octet
+    #[serde(default)]
+    pub trail_kind: u8,
 }
 
 #[derive(Debug, PartialEq, Eq, Clone)]
@@ -278,7 +283,24 @@ fn run_msg_read(c: &MsgReadCase) -> Outcome {
             }
             if c.trailing {
                 let again = b.clone();
-                b.extend_from_slice(&again);
+                let marker = crate::reference::frame::frame_min(10, b"PGP");
+                let padding = crate::reference::frame::frame_min(21, &[0x5A; 6]);
+                match c.trail_kind {
+                    0 => b.extend_from_slice(&again),
+                    1 => {
+                        b.extend_from_slice(&marker);
+                        b.extend_from_slice(&again);
+                    }
+                    2 => {
+                        b.extend_from_slice(&padding);
+                        b.extend_from_slice(&crate::reference::frame::frame_min(11, b"b\0\0\0\0\0appended"));
+                    }
+                    _ => {
+                        b.extend_from_slice(&marker);
+                        b.extend_from_slice(&padding);
+                        b.push(0x00);
+                    }
+                }
             }
             Arc::new(b)
         }
@@ -886,6 +908,7 @@ pub fn check(ctx: &Ctx) {
                     n,
                     sched: s,
                     trailing: false,
+                    trail_kind: 0,
                 });
             }
         }
@@ -906,6 +929,7 @@ pub fn check(ctx: &Ctx) {
                     n,
                     sched: s,
                     trailing: false,
+                    trail_kind: 0,
                 });
             }
         }
@@ -922,14 +946,16 @@ pub fn check(ctx: &Ctx) {
                 uni(3, 7, Consumer::BufScripted),
                 uni(511, 8192, Consumer::BufScripted),
             ] {
-                rc.push(MsgReadCase { cfg: cfg.clone(), n, sched: s, trailing: true });
+                for trail_kind in 0..4u8 {
+                    rc.push(MsgReadCase { cfg: cfg.clone(), n, sched: s.clone(), trailing: true, trail_kind });
+                }
             }
         }
     }
     ctx.run_space(
         "message_reader",
         true,
-        "Message::from_bytes/from_armor over BufReader(cap) over a scripted source -> decrypt -> decompress -> consumer -> verify, for 40 configurations (compression none/zip x plain/SEIPDv1/SEIPDv2 x signed or not x binary/text x armor; armored input with LF and, for odd lengths, CR LF line endings) x payload lengths at the partial-body/chunk boundaries (reader-sourced = partial framing; bytes-sourced = fixed 1/2/5-octet lengths): all executions with <= 1 (thorough also 2) deviations from the default read/consumer answers including an injected source error (sticky, transient = returned once, and ErrorKind::Interrupted = nothing read, call again) at every call, plus uniform 1/2/3/7/511/513-byte sources; consumer = read_to_end, fixed 1/3/8191, scripted sizes, fill_buf/consume. Oracle: same data, mode, signature verdicts; a source error surfaces as an error; after an interrupted read, repeated by the consumer as std does, the result is unchanged or an error. Also streams on which a second message follows the first: every way of consuming (read_to_end, read(k), scripted sizes, fill_buf/consume) ends in an error.",
+        "Message::from_bytes/from_armor over BufReader(cap) over a scripted source -> decrypt -> decompress -> consumer -> verify, for 40 configurations (compression none/zip x plain/SEIPDv1/SEIPDv2 x signed or not x binary/text x armor; armored input with LF and, for odd lengths, CR LF line endings) x payload lengths at the partial-body/chunk boundaries (reader-sourced = partial framing; bytes-sourced = fixed 1/2/5-octet lengths): all executions with <= 1 (thorough also 2) deviations from the default read/consumer answers including an injected source error (sticky, transient = returned once, and ErrorKind::Interrupted = nothing read, call again) at every call, plus uniform 1/2/3/7/511/513-byte sources; consumer = read_to_end, fixed 1/3/8191, scripted sizes, fill_buf/consume. Oracle: same data, mode, signature verdicts; a source error surfaces as an error; after an interrupted read, repeated by the consumer as std does, the result is unchanged or an error. Also streams on which something follows the first message (the message once more; a Marker packet and the message once more; a Padding packet and a literal packet; Marker, Padding and a stray octet): every way of consuming (read_to_end, read(k), scripted sizes, fill_buf/consume) ends in an error.",
         rc.into_par_iter(),
         run_msg_read,
     );
